@@ -1,6 +1,7 @@
 /-
   Helper lemmas about the nmt-rs model (`Lumina/Model/Nmt.lean`): tree-shape arithmetic, hash
-  injectivity / domain separation under the idealised-hash hypothesis `HashOK`, the single-leaf
+  injectivity / domain separation under collision-freeness RELATIVE TO the hashed inputs (`HashOKOn H S`; the
+  former global hypothesis `HashOK` was contradictory and is removed), the single-leaf
   recursion of `check_range_proof_inner` against perfect trees (position binding).
 -/
 import Lumina.Model.Nmt
@@ -40,16 +41,8 @@ theorem nextSmallerPo2_spec (n : Nat) (h : 2 ≤ n) : ∃ m, nextSmallerPo2 n = 
     · simpa using h2
 
 
-/-- the idealised hash: collision-free (injective) with 32-byte output.  No real function satisfies this;
-    theorems that assume it are the usual reduction "a violation yields a collision". -/
-structure HashOK (H : HashFn) : Prop where
-  inj : Function.Injective H
-  len : ∀ x, (H x).length = HASH_LEN
-
 /-- the hash has 32-byte output (true of sha256; the only fact about the hash that completeness needs) -/
 def HashLen (H : HashFn) : Prop := ∀ x, (H x).length = HASH_LEN
-
-theorem HashOK.hlen {H : HashFn} (hk : HashOK H) : HashLen H := hk.len
 
 theorem toBytes_length {h : NsHash} (w : h.WF) : h.toBytes.length = NAMESPACED_HASH_SIZE := by
   obtain ⟨a, b, c⟩ := w
@@ -89,40 +82,6 @@ theorem hashNodes_WF {H : HashFn} (hk : HashLen H) {ign : Bool} {l r h : NsHash}
         · rcases maxB_cases l.maxNs r.maxNs with h | h
           · simp only [h]; exact wl.2.1
           · simp only [h]; exact wr.2.1
-
-/-- the hash field of an inner node determines both children -/
-theorem hashNodes_hash_inj {H : HashFn} (hk : HashOK H) {ign ign' : Bool} {l r l' r' h h' : NsHash}
-    (wl : l.WF) (wr : r.WF) (wl' : l'.WF) (wr' : r'.WF)
-    (e : hashNodes H ign l r = .ok h) (e' : hashNodes H ign' l' r' = .ok h') (hh : h.hash = h'.hash) :
-    l = l' ∧ r = r' := by
-  unfold hashNodes at e e'
-  split at e
-  · cases e
-  · split at e'
-    · cases e'
-    · injection e with e; injection e' with e'
-      subst e; subst e'
-      have := hk.inj hh
-      injection this with _ this
-      have h1 := List.append_inj this (by rw [toBytes_length wl, toBytes_length wl'])
-      exact ⟨toBytes_inj wl wl' h1.1, toBytes_inj wr wr' h1.2⟩
-
-/-- domain separation: a leaf hash is never the hash of an inner node -/
-theorem leaf_ne_node {H : HashFn} (hk : HashOK H) {ign : Bool} {ns d : Bytes} {l r h : NsHash}
-    (e : hashNodes H ign l r = .ok h) (hh : (hashLeaf H ns d).hash = h.hash) : False := by
-  unfold hashNodes at e
-  split at e
-  · cases e
-  · injection e with e
-    subst e
-    have := hk.inj hh
-    simp [LEAF_PREFIX, NODE_PREFIX] at this
-
-theorem hashLeaf_inj {H : HashFn} (hk : HashOK H) {ns ns' d d' : Bytes} (hl : ns.length = ns'.length)
-    (hh : (hashLeaf H ns d).hash = (hashLeaf H ns' d').hash) : ns = ns' ∧ d = d' := by
-  have := hk.inj hh
-  injection this with _ this
-  exact List.append_inj this hl
 
 theorem hashLeaf_WF {H : HashFn} (hk : HashLen H) {ns d : Bytes} (h : ns.length = NS_SIZE) : (hashLeaf H ns d).WF :=
   ⟨h, h, hk _⟩
@@ -333,13 +292,6 @@ theorem perfectRoot_WF {H : HashFn} (hk : HashLen H) {ign : Bool} : ∀ (j : Nat
     obtain ⟨l, r, hl, hr, hn⟩ := perfectRoot_succ e
     exact hashNodes_WF hk (ih (al.take _) hl) (ih (al.drop _) hr) hn
 
-/-- a perfect tree of depth ≥ 1 never has a leaf hash as its root -/
-theorem perfectRoot_succ_ne_leaf {H : HashFn} (hk : HashOK H) {ign : Bool} {j : Nat} {L : List NsHash} {ns d : Bytes}
-    (e : perfectRoot H ign (j + 1) L = .ok (hashLeaf H ns d)) : False := by
-  obtain ⟨l, r, _, _, hn⟩ := perfectRoot_succ e
-  exact leaf_ne_node hk hn rfl
-
-
 def IsLeaf (H : HashFn) (x : NsHash) : Prop := ∃ ns d, ns.length = NS_SIZE ∧ x = hashLeaf H ns d
 
 theorem IsLeaf.WF {H : HashFn} {x : NsHash} (h : IsLeaf H x) (hk : HashLen H) : x.WF := by
@@ -356,238 +308,9 @@ theorem nextSmallerPo2_pow (m : Nat) : nextSmallerPo2 (2 ^ (m + 1)) = 2 ^ m := b
   have : m' = m := by omega
   rw [this]
 
-/-- shallow verifier subtree against a deeper perfect real tree: impossible -/
-theorem inner_single_shallow {H : HashFn} (hk : HashOK H) {ign ign' : Bool} : ∀ (fuel j : Nat) {x : NsHash} {proof : List NsHash}
-    {start size offset : Nat} {h : NsHash} {lv' pf' : List NsHash} {L : List NsHash},
-    IsLeaf H x → (∀ p ∈ proof, p.WF) → AllLeaf H L → 2 ≤ size → size ≤ 2 ^ j →
-    checkRangeProofInner H ign fuel [x] proof start size offset = .ok (h, lv', pf') →
-    perfectRoot H ign' (j + 1) L = .ok h → False := by
-  intro fuel
-  induction fuel with
-  | zero => intro j x proof start size offset h lv' pf' L _ _ _ _ _ e; simp [checkRangeProofInner] at e
-  | succ f ih =>
-    intro j x proof start size offset h lv' pf' L lx wp al h2 hsz e pr
-    obtain ⟨m, hm, hlt, hle⟩ := nextSmallerPo2_spec size h2
-    obtain ⟨l, r, hl, hr, hn'⟩ := perfectRoot_succ pr
-    have wl := perfectRoot_WF hk.hlen j (al.take _) hl
-    have wr := perfectRoot_WF hk.hlen j (al.drop _) hr
-    have hmj : m < j := (Nat.pow_lt_pow_iff_right (by omega)).mp (Nat.lt_of_lt_of_le hlt hsz)
-    obtain ⟨j', rfl⟩ : ∃ j', j = j' + 1 := ⟨j - 1, by omega⟩
-    have hmle : 2 ^ m ≤ 2 ^ j' := Nat.pow_le_pow_right (by omega) (by omega)
-    rcases inner_single_step e _ hm.symm with ⟨_, right, lv1, pf1, sib, hrr, htl, hn, _⟩ | ⟨_, sib, pf1, left, htl, hll, hn⟩
-    · have hpf1 := takeLast?_some htl
-      rcases hrr with ⟨_, rfl, _, rfl⟩ | ⟨hne, hrec⟩
-      · have wsib : sib.WF := wp sib (by rw [hpf1]; simp)
-        obtain ⟨_, rfl⟩ := hashNodes_hash_inj hk wsib (lx.WF hk.hlen) wl wr hn hn' rfl
-        obtain ⟨ns, d, _, rfl⟩ := lx
-        exact perfectRoot_succ_ne_leaf hk hr
-      · obtain ⟨wright, wpf1⟩ := inner_single_WF hk.hlen f hrec (lx.WF hk.hlen) wp
-        have wsib : sib.WF := wpf1 sib (by rw [hpf1]; simp)
-        obtain ⟨_, rfl⟩ := hashNodes_hash_inj hk wsib wright wl wr hn hn' rfl
-        exact ih j' lx wp (al.drop _) (by omega) (by omega) hrec hr
-    · have hpf := takeLast?_some htl
-      have wsib : sib.WF := wp sib (by rw [hpf]; simp)
-      have wpf1 : ∀ p ∈ pf1, p.WF := fun p hp => wp p (by rw [hpf]; simp [hp])
-      rcases hll with ⟨_, rfl, _, rfl⟩ | ⟨hne, hrec⟩
-      · obtain ⟨rfl, _⟩ := hashNodes_hash_inj hk (lx.WF hk.hlen) wsib wl wr hn hn' rfl
-        obtain ⟨ns, d, _, rfl⟩ := lx
-        exact perfectRoot_succ_ne_leaf hk hl
-      · obtain ⟨wleft, _⟩ := inner_single_WF hk.hlen f hrec (lx.WF hk.hlen) wpf1
-        obtain ⟨rfl, _⟩ := hashNodes_hash_inj hk wleft wsib wl wr hn hn' rfl
-        have : 2 ≤ 2 ^ m := by
-          have : 1 ≤ 2 ^ m := Nat.one_le_two_pow
-          omega
-        exact ih j' lx wpf1 (al.take _) this hmle hrec hl
-
 theorem two_le_two_pow_succ (m : Nat) : 2 ≤ 2 ^ (m + 1) := by
   have : 1 ≤ 2 ^ m := Nat.one_le_two_pow
   rw [Nat.pow_succ]; omega
-
-/-- perfect verifier subtree against a perfect real tree: same depth, and the leaf sits at its index -/
-theorem inner_single_perfect {H : HashFn} (hk : HashOK H) {ign ign' : Bool} : ∀ (fuel m j : Nat) {x : NsHash} {proof : List NsHash}
-    {start offset : Nat} {h : NsHash} {lv' pf' : List NsHash} {L : List NsHash},
-    IsLeaf H x → (∀ p ∈ proof, p.WF) → AllLeaf H L → offset ≤ start → start < offset + 2 ^ (m + 1) →
-    checkRangeProofInner H ign fuel [x] proof start (2 ^ (m + 1)) offset = .ok (h, lv', pf') →
-    perfectRoot H ign' j L = .ok h → j = m + 1 ∧ L[start - offset]? = some x := by
-  intro fuel
-  induction fuel with
-  | zero => intro m j x proof start offset h lv' pf' L _ _ _ _ _ e; simp [checkRangeProofInner] at e
-  | succ f ih =>
-    intro m j x proof start offset h lv' pf' L lx wp al hos hlt e pr
-    have hstep := inner_single_step e _ (nextSmallerPo2_pow m).symm
-    have hsub : 2 ^ (m + 1) - 2 ^ m = 2 ^ m := by rw [Nat.pow_succ]; omega
-    rw [hsub] at hstep
-    -- the real tree is not a single leaf
-    cases j with
-    | zero =>
-      exfalso
-      have hL := perfectRoot_zero pr
-      obtain ⟨ns, d, _, rfl⟩ := al h (by rw [hL]; simp)
-      rcases hstep with ⟨_, right, lv1, pf1, sib, _, _, hn, _⟩ | ⟨_, sib, pf1, left, _, _, hn⟩
-      · exact leaf_ne_node hk hn rfl
-      · exact leaf_ne_node hk hn rfl
-    | succ j' =>
-      obtain ⟨l, r, hl, hr, hn'⟩ := perfectRoot_succ pr
-      have wl := perfectRoot_WF hk.hlen j' (al.take _) hl
-      have wr := perfectRoot_WF hk.hlen j' (al.drop _) hr
-      have hlenL := perfectRoot_length j' hl
-      rcases hstep with ⟨hge, right, lv1, pf1, sib, hrr, htl, hn, _⟩ | ⟨hlt2, sib, pf1, left, htl, hll, hn⟩
-      · have hpf1 := takeLast?_some htl
-        rcases hrr with ⟨h1, rfl, _, rfl⟩ | ⟨hne, hrec⟩
-        · have wsib : sib.WF := wp sib (by rw [hpf1]; simp)
-          obtain ⟨_, rfl⟩ := hashNodes_hash_inj hk wsib (lx.WF hk.hlen) wl wr hn hn' rfl
-          have hm0 : m = 0 := by
-            cases m with
-            | zero => rfl
-            | succ m' => have := two_le_two_pow_succ m'; omega
-          subst hm0
-          cases j' with
-          | succ j'' => obtain ⟨ns, d, _, rfl⟩ := lx; exact (perfectRoot_succ_ne_leaf hk hr).elim
-          | zero =>
-            refine ⟨rfl, ?_⟩
-            have hd := perfectRoot_zero hr
-            have : start - offset = 1 := by simp at hlt hge; omega
-            rw [this]
-            have : (L.drop (2 ^ 0))[0]? = some right := by rw [hd]; rfl
-            simpa using this
-        · obtain ⟨wright, wpf1⟩ := inner_single_WF hk.hlen f hrec (lx.WF hk.hlen) wp
-          have wsib : sib.WF := wpf1 sib (by rw [hpf1]; simp)
-          obtain ⟨_, rfl⟩ := hashNodes_hash_inj hk wsib wright wl wr hn hn' rfl
-          obtain ⟨m', rfl⟩ : ∃ m', m = m' + 1 := by
-            cases m with
-            | zero => simp at hne
-            | succ m' => exact ⟨m', rfl⟩
-          have hlt' : start < offset + 2 ^ (m' + 1) + 2 ^ (m' + 1) := by
-            have : 2 ^ (m' + 1 + 1) = 2 ^ (m' + 1) + 2 ^ (m' + 1) := by rw [Nat.pow_succ]; omega
-            omega
-          obtain ⟨hj, hx⟩ := ih m' j' lx wp (al.drop _) (by omega) hlt' hrec hr
-          subst hj
-          refine ⟨rfl, ?_⟩
-          rw [List.getElem?_drop] at hx
-          have : 2 ^ (m' + 1) + (start - (offset + 2 ^ (m' + 1))) = start - offset := by omega
-          rw [this] at hx; exact hx
-      · have hpf := takeLast?_some htl
-        have wsib : sib.WF := wp sib (by rw [hpf]; simp)
-        have wpf1 : ∀ p ∈ pf1, p.WF := fun p hp => wp p (by rw [hpf]; simp [hp])
-        rcases hll with ⟨h1, rfl, _, rfl⟩ | ⟨hne, hrec⟩
-        · obtain ⟨rfl, _⟩ := hashNodes_hash_inj hk (lx.WF hk.hlen) wsib wl wr hn hn' rfl
-          have hm0 : m = 0 := by
-            cases m with
-            | zero => rfl
-            | succ m' => have := two_le_two_pow_succ m'; omega
-          subst hm0
-          cases j' with
-          | succ j'' => obtain ⟨ns, d, _, rfl⟩ := lx; exact (perfectRoot_succ_ne_leaf hk hl).elim
-          | zero =>
-            refine ⟨rfl, ?_⟩
-            have hd := perfectRoot_zero hl
-            have : start - offset = 0 := by simp at hlt2; omega
-            rw [this]
-            have : (L.take (2 ^ 0))[0]? = some left := by rw [hd]; rfl
-            rw [List.getElem?_take] at this
-            simpa using this
-        · obtain ⟨wleft, _⟩ := inner_single_WF hk.hlen f hrec (lx.WF hk.hlen) wpf1
-          obtain ⟨rfl, _⟩ := hashNodes_hash_inj hk wleft wsib wl wr hn hn' rfl
-          obtain ⟨m', rfl⟩ : ∃ m', m = m' + 1 := by
-            cases m with
-            | zero => simp at hne
-            | succ m' => exact ⟨m', rfl⟩
-          obtain ⟨hj, hx⟩ := ih m' j' lx wpf1 (al.take _) hos (by omega) hrec hl
-          subst hj
-          refine ⟨rfl, ?_⟩
-          rw [List.getElem?_take] at hx
-          split at hx
-          · exact hx
-          · cases hx
-
-/-- general verifier subtree against a perfect real tree, the requested index inside the real tree:
-    the leaf sits at its index -/
-theorem inner_single_general {H : HashFn} (hk : HashOK H) {ign ign' : Bool} : ∀ (fuel j : Nat) {x : NsHash} {proof : List NsHash}
-    {start size offset : Nat} {h : NsHash} {lv' pf' : List NsHash} {L : List NsHash},
-    IsLeaf H x → (∀ p ∈ proof, p.WF) → AllLeaf H L → 2 ≤ size → offset ≤ start → start < offset + 2 ^ j →
-    checkRangeProofInner H ign fuel [x] proof start size offset = .ok (h, lv', pf') →
-    perfectRoot H ign' j L = .ok h → L[start - offset]? = some x := by
-  intro fuel
-  induction fuel with
-  | zero => intro j x proof start size offset h lv' pf' L _ _ _ _ _ _ e; simp [checkRangeProofInner] at e
-  | succ f ih =>
-    intro j x proof start size offset h lv' pf' L lx wp al h2 hos hlt e pr
-    obtain ⟨m, hm, hmlt, hmle⟩ := nextSmallerPo2_spec size h2
-    have hstep := inner_single_step e _ hm.symm
-    cases j with
-    | zero =>
-      exfalso
-      have hL := perfectRoot_zero pr
-      obtain ⟨ns, d, _, rfl⟩ := al h (by rw [hL]; simp)
-      rcases hstep with ⟨_, right, lv1, pf1, sib, _, _, hn, _⟩ | ⟨_, sib, pf1, left, _, _, hn⟩
-      · exact leaf_ne_node hk hn rfl
-      · exact leaf_ne_node hk hn rfl
-    | succ j' =>
-      obtain ⟨l, r, hl, hr, hn'⟩ := perfectRoot_succ pr
-      have wl := perfectRoot_WF hk.hlen j' (al.take _) hl
-      have wr := perfectRoot_WF hk.hlen j' (al.drop _) hr
-      rcases hstep with ⟨hge, right, lv1, pf1, sib, hrr, htl, hn, _⟩ | ⟨hlt2, sib, pf1, left, htl, hll, hn⟩
-      · have hpf1 := takeLast?_some htl
-        -- 2^m ≤ start - offset < 2^(j'+1), hence m ≤ j'
-        have hmj : m ≤ j' := by
-          have : 2 ^ m < 2 ^ (j' + 1) := by omega
-          have := (Nat.pow_lt_pow_iff_right (by omega)).mp this
-          omega
-        rcases hrr with ⟨h1, rfl, _, rfl⟩ | ⟨hne, hrec⟩
-        · have wsib : sib.WF := wp sib (by rw [hpf1]; simp)
-          obtain ⟨_, rfl⟩ := hashNodes_hash_inj hk wsib (lx.WF hk.hlen) wl wr hn hn' rfl
-          cases j' with
-          | succ j'' => obtain ⟨ns, d, _, rfl⟩ := lx; exact (perfectRoot_succ_ne_leaf hk hr).elim
-          | zero =>
-            have hm0 : m = 0 := by omega
-            subst hm0
-            have hd := perfectRoot_zero hr
-            have : start - offset = 1 := by simp at hlt hge; omega
-            rw [this]
-            have : (L.drop (2 ^ 0))[0]? = some right := by rw [hd]; rfl
-            simpa using this
-        · obtain ⟨wright, wpf1⟩ := inner_single_WF hk.hlen f hrec (lx.WF hk.hlen) wp
-          have wsib : sib.WF := wpf1 sib (by rw [hpf1]; simp)
-          obtain ⟨_, rfl⟩ := hashNodes_hash_inj hk wsib wright wl wr hn hn' rfl
-          by_cases hmeq : m = j'
-          · subst hmeq
-            have hlt' : start < offset + 2 ^ m + 2 ^ m := by
-              have : 2 ^ (m + 1) = 2 ^ m + 2 ^ m := by rw [Nat.pow_succ]; omega
-              omega
-            have hx := ih m lx wp (al.drop _) (by omega) (by omega) hlt' hrec hr
-            rw [List.getElem?_drop] at hx
-            have : 2 ^ m + (start - (offset + 2 ^ m)) = start - offset := by omega
-            rw [this] at hx; exact hx
-          · exfalso
-            obtain ⟨j'', rfl⟩ : ∃ j'', j' = j'' + 1 := ⟨j' - 1, by omega⟩
-            have : 2 ^ m ≤ 2 ^ j'' := Nat.pow_le_pow_right (by omega) (by omega)
-            exact inner_single_shallow hk f j'' lx wp (al.drop _) (by omega) (by omega) hrec hr
-      · have hpf := takeLast?_some htl
-        have wsib : sib.WF := wp sib (by rw [hpf]; simp)
-        have wpf1 : ∀ p ∈ pf1, p.WF := fun p hp => wp p (by rw [hpf]; simp [hp])
-        rcases hll with ⟨h1, rfl, _, rfl⟩ | ⟨hne, hrec⟩
-        · obtain ⟨rfl, _⟩ := hashNodes_hash_inj hk (lx.WF hk.hlen) wsib wl wr hn hn' rfl
-          cases j' with
-          | succ j'' => obtain ⟨ns, d, _, rfl⟩ := lx; exact (perfectRoot_succ_ne_leaf hk hl).elim
-          | zero =>
-            have hd := perfectRoot_zero hl
-            have : start - offset = 0 := by omega
-            rw [this]
-            have : (L.take (2 ^ 0))[0]? = some left := by rw [hd]; rfl
-            rw [List.getElem?_take] at this
-            simpa using this
-        · obtain ⟨wleft, _⟩ := inner_single_WF hk.hlen f hrec (lx.WF hk.hlen) wpf1
-          obtain ⟨rfl, _⟩ := hashNodes_hash_inj hk wleft wsib wl wr hn hn' rfl
-          obtain ⟨m', rfl⟩ : ∃ m', m = m' + 1 := by
-            cases m with
-            | zero => simp at hne
-            | succ m' => exact ⟨m', rfl⟩
-          obtain ⟨hj, hx⟩ := inner_single_perfect hk f m' j' lx wpf1 (al.take _) hos (by omega) hrec hl
-          rw [List.getElem?_take] at hx
-          split at hx
-          · exact hx
-          · cases hx
-
 
 theorem computeTreeSizeAux_ge : ∀ (fuel rem idx mask n : Nat),
     computeTreeSizeAux fuel rem idx mask = .ok n → idx + 1 ≤ n := by
@@ -692,63 +415,6 @@ theorem computeRootAux_perfect {H : HashFn} {ign : Bool} : ∀ (j fuel : Nat) (L
 theorem computeRoot_perfect {H : HashFn} {ign : Bool} {j : Nat} {L : List NsHash} (hl : L.length = 2 ^ j) :
     computeRoot H ign L = perfectRoot H ign j L :=
   computeRootAux_perfect j _ L hl (by rw [hl]; omega)
-
-/-- **Position binding of single-leaf range proofs against perfect trees.**  If `check_range_proof` accepts
-    the single leaf hash `x` at index `start < 2^j` against the root of the `2^j` leaf hashes `L`, then `x` is
-    the `start`-th element of `L` (idealised hash). -/
-theorem checkRangeProof_single_sound {H : HashFn} (hk : HashOK H) {ign ign' : Bool} {j : Nat} {L : List NsHash}
-    {root x : NsHash} {proof : List NsHash} {start : Nat}
-    (al : AllLeaf H L) (hl : L.length = 2 ^ j) (hroot : computeRoot H ign' L = .ok root)
-    (lx : IsLeaf H x) (wp : ∀ p ∈ proof, p.WF) (hs : start < 2 ^ j)
-    (e : checkRangeProof H ign root [x] proof start = .ok ()) : L[start]? = some x := by
-  rw [computeRoot_perfect hl] at hroot
-  unfold checkRangeProof at e
-  simp only [List.length_singleton, Nat.one_ne_zero, ↓reduceIte, true_and] at e
-  by_cases hp : proof.isEmpty = true
-  · simp only [hp, ↓reduceIte] at e
-    split at e
-    · rename_i hc
-      simp only [List.head?_cons, Bool.and_eq_true, beq_iff_eq, Option.some.injEq] at hc
-      obtain ⟨rfl, rfl⟩ := hc
-      cases j with
-      | zero => rw [perfectRoot_zero hroot]; rfl
-      | succ j' => obtain ⟨ns, d, _, rfl⟩ := lx; exact (perfectRoot_succ_ne_leaf hk hroot).elim
-    · cases e
-  · simp only [hp, Bool.false_eq_true, ↓reduceIte] at e
-    split at e
-    · cases e
-    · rename_i hnl
-      have h11 : start + 1 - 1 = start := by omega
-      rw [h11] at e
-      cases hts : computeTreeSize (proof.length - computeNumLeftSiblings start) start with
-      | error er => simp [hts] at e
-      | ok treeSize =>
-        simp only [hts] at e
-        cases hin : checkRangeProofInner H ign treeSize [x] proof start treeSize 0 with
-        | error er => simp [hin] at e
-        | ok v =>
-          obtain ⟨computed, lv', pf'⟩ := v
-          simp only [hin] at e
-          split at e
-          · rename_i heq
-            have heq' : computed = root := by simpa using heq
-            subst heq'
-            have hsz : 2 ≤ treeSize := by
-              have hge := computeTreeSize_ge hts
-              by_cases h0 : start = 0
-              · subst h0
-                have hn0 : computeNumLeftSiblings 0 = 0 := rfl
-                rw [hn0] at hts
-                have : 1 ≤ proof.length := by
-                  cases proof with
-                  | nil => simp at hp
-                  | cons a b => simp
-                exact computeTreeSize_ge_two (by omega) hts
-              · omega
-            have := inner_single_general hk treeSize j lx wp al hsz (Nat.zero_le _) (by omega) hin hroot
-            simpa using this
-          · cases e
-
 
 /-- number of zero bits among the low `n` bits of `q` -/
 def zerosLow : Nat → Nat → Nat
@@ -1246,106 +912,6 @@ theorem computeRootAux_cons2 {H : HashFn} {ign : Bool} {fuel : Nat} {a b : NsHas
     · rename_i rr hr
       exact ⟨l, rr, hl, hr, e⟩
 
-theorem emptyRoot_ne_node {H : HashFn} (hk : HashOK H) {ign : Bool} {l r h : NsHash}
-    (e : hashNodes H ign l r = .ok h) (hh : (emptyRoot H).hash = h.hash) : False := by
-  unfold hashNodes at e
-  split at e
-  · cases e
-  · injection e with e
-    subst e
-    have := hk.inj hh
-    simp at this
-
-theorem emptyRoot_ne_leaf {H : HashFn} (hk : HashOK H) {ns d : Bytes}
-    (hh : (emptyRoot H).hash = (hashLeaf H ns d).hash) : False := by
-  have := hk.inj hh
-  simp at this
-
-/-- **The hash part of an NMT root determines the leaves** (any two leaf lists, any lengths, idealised hash) -/
-theorem computeRootAux_hash_inj {H : HashFn} (hk : HashOK H) {ign ign' : Bool} : ∀ (fuel fuel' : Nat) (L L' : List NsHash)
-    (r r' : NsHash), L.length < fuel → L'.length < fuel' → AllLeaf H L → AllLeaf H L' →
-    computeRootAux H ign fuel L = .ok r → computeRootAux H ign' fuel' L' = .ok r' → r.hash = r'.hash → L = L' := by
-  intro fuel
-  induction fuel with
-  | zero => intro fuel' L L' r r' h; omega
-  | succ f ih =>
-    intro fuel' L L' r r' hf hf' al al' e e' hh
-    obtain ⟨f', rfl⟩ : ∃ f', fuel' = f' + 1 := ⟨fuel' - 1, by omega⟩
-    match L, L', hf, hf', al, al', e, e' with
-    | [], [], _, _, _, _, _, _ => rfl
-    | [], [x'], _, _, _, al', e, e' =>
-      exfalso
-      simp [computeRootAux] at e e'
-      subst e; subst e'
-      obtain ⟨ns, d, _, hx⟩ := al' x' (by simp)
-      rw [hx] at hh
-      exact emptyRoot_ne_leaf hk hh
-    | [], a' :: b' :: rest', _, _, _, _, e, e' =>
-      exfalso
-      simp [computeRootAux] at e
-      subst e
-      obtain ⟨l, rr, _, _, hn⟩ := computeRootAux_cons2 e'
-      exact emptyRoot_ne_node hk hn hh
-    | [x], [], _, _, al, _, e, e' =>
-      exfalso
-      simp [computeRootAux] at e e'
-      subst e; subst e'
-      obtain ⟨ns, d, _, hx⟩ := al x (by simp)
-      rw [hx] at hh
-      exact emptyRoot_ne_leaf hk hh.symm
-    | [x], [x'], _, _, al, al', e, e' =>
-      simp [computeRootAux] at e e'
-      subst e; subst e'
-      obtain ⟨ns, d, hl, hx⟩ := al x (by simp)
-      obtain ⟨ns', d', hl', hx'⟩ := al' x' (by simp)
-      rw [hx, hx'] at hh
-      obtain ⟨rfl, rfl⟩ := hashLeaf_inj hk (by rw [hl, hl']) hh
-      rw [hx, hx']
-    | [x], a' :: b' :: rest', _, _, al, _, e, e' =>
-      exfalso
-      simp [computeRootAux] at e
-      subst e
-      obtain ⟨ns, d, _, hx⟩ := al x (by simp)
-      rw [hx] at hh
-      obtain ⟨l, rr, _, _, hn⟩ := computeRootAux_cons2 e'
-      exact leaf_ne_node hk hn hh
-    | a :: b :: rest, [], _, _, _, _, e, e' =>
-      exfalso
-      simp [computeRootAux] at e'
-      subst e'
-      obtain ⟨l, rr, _, _, hn⟩ := computeRootAux_cons2 e
-      exact emptyRoot_ne_node hk hn hh.symm
-    | a :: b :: rest, [x'], _, _, _, al', e, e' =>
-      exfalso
-      simp [computeRootAux] at e'
-      subst e'
-      obtain ⟨ns, d, _, hx⟩ := al' x' (by simp)
-      rw [hx] at hh
-      obtain ⟨l, rr, _, _, hn⟩ := computeRootAux_cons2 e
-      exact leaf_ne_node hk hn hh.symm
-    | a :: b :: rest, a' :: b' :: rest', hf, hf', al, al', e, e' =>
-      obtain ⟨l, rr, hl, hr, hn⟩ := computeRootAux_cons2 e
-      obtain ⟨l', rr', hl', hr', hn'⟩ := computeRootAux_cons2 e'
-      have wl := computeRootAux_WF hk.hlen _ (AllLeaf.allWF hk.hlen (al.take _)) hl
-      have wr := computeRootAux_WF hk.hlen _ (AllLeaf.allWF hk.hlen (al.drop _)) hr
-      have wl' := computeRootAux_WF hk.hlen _ (AllLeaf.allWF hk.hlen (al'.take _)) hl'
-      have wr' := computeRootAux_WF hk.hlen _ (AllLeaf.allWF hk.hlen (al'.drop _)) hr'
-      obtain ⟨rfl, rfl⟩ := hashNodes_hash_inj hk wl wr wl' wr' hn hn' hh
-      obtain ⟨m, hm, hmlt, _⟩ := nextSmallerPo2_spec (a :: b :: rest).length (by simp)
-      obtain ⟨m', hm', hmlt', _⟩ := nextSmallerPo2_spec (a' :: b' :: rest').length (by simp)
-      have h1 := ih f' _ _ _ _ (by rw [List.length_take]; omega) (by rw [List.length_take]; omega)
-        (al.take _) (al'.take _) hl hl' rfl
-      have h2 := ih f' _ _ _ _ (by rw [List.length_drop]; omega) (by rw [List.length_drop]; omega)
-        (al.drop _) (al'.drop _) hr hr' rfl
-      rw [← List.take_append_drop (nextSmallerPo2 (a :: b :: rest).length) (a :: b :: rest),
-        ← List.take_append_drop (nextSmallerPo2 (a' :: b' :: rest').length) (a' :: b' :: rest'), h1, h2]
-
-theorem computeRoot_hash_inj {H : HashFn} (hk : HashOK H) {ign ign' : Bool} {L L' : List NsHash} {r r' : NsHash}
-    (al : AllLeaf H L) (al' : AllLeaf H L') (e : computeRoot H ign L = .ok r) (e' : computeRoot H ign' L' = .ok r')
-    (hh : r.hash = r'.hash) : L = L' :=
-  computeRootAux_hash_inj hk _ _ L L' r r' (by omega) (by omega) al al' e e' hh
-
-
 theorem ltB_irrefl : ∀ (a : Bytes), ltB a a = false := by
   intro a
   induction a with
@@ -1676,8 +1242,8 @@ theorem computeRootAux_range {H : HashFn} : ∀ (fuel : Nat) {L : List NsHash} {
 
 /-! ## Collision-freeness RELATIVE to the byte strings actually hashed
 
-`HashOK` (injective on ALL byte strings with 32-byte output) is contradictory (pigeonhole), so theorems that assume it
-are vacuous.  The satisfiable formulation: the hash has no collision among an explicitly given set `S` of inputs — the
+The former hypothesis `HashOK` (injective on ALL byte strings with 32-byte output) was contradictory (pigeonhole), so
+theorems that assumed it were vacuous; it and all lemmas stated with it have been removed (audit item X1).  The satisfiable formulation: the hash has no collision among an explicitly given set `S` of inputs — the
 inputs hashed by the two computations a theorem compares (honest roots, verifier). -/
 
 /-- `H` has no collision among the inputs satisfying `S` -/
@@ -1695,11 +1261,6 @@ theorem HashOKOn.mono {H : HashFn} {S S' : Bytes → Prop} (h : HashOKOn H S) (h
   ⟨h.inj.mono hs, h.len⟩
 
 theorem HashOKOn.hlen {H : HashFn} {S : Bytes → Prop} (hk : HashOKOn H S) : HashLen H := hk.len
-
-/-- DEPRECATED bridge (kept only so that files not yet ported keep building): the contradictory `HashOK` gives
-    `HashOKOn` for every `S`.  New theorems must not take `HashOK`. -/
-theorem HashOK.toOn {H : HashFn} (hk : HashOK H) (S : Bytes → Prop) : HashOKOn H S :=
-  ⟨fun _ _ _ _ h => hk.inj h, hk.len⟩
 
 /-- a violation of `NoCollOn` is an explicit collision among inputs of `S` -/
 def CollisionIn (H : HashFn) (S : Bytes → Prop) : Prop := ∃ x y, S x ∧ S y ∧ x ≠ y ∧ H x = H y
